@@ -8,14 +8,20 @@
    identity); along a path every tube's fluid gains exactly the heat its wall
    gives (C14); k identical tubes of multiplier m and one tube of multiplier k*m
    have the same balance; the reset trigger fires exactly at whole periods; the
-   Picard loop returns only when its criterion holds (C17).  The factor between
-   the solid's inner-wall exchange (half-node radius) and the fluid's wall
-   integral (true radius) is (1 + dr/2r_o) / (1 - dr/2r_i) for the whole tube; it
-   is used as the tolerance of the energy oracle and validated, not proved as a
-   single theorem about the coupled fixed point. *)
+   Picard loop returns only when its criterion holds (C17).  The energy clause
+   through the coupled fixed point (proofs/CoupledEnergy.v): when the wall solver's
+   steady equations hold with the film condition the coupled solver builds for a
+   tube (that tube's film coefficient and reported fluid temperatures) and the tube's
+   link of the flow path is balanced on the wall temperatures the solid returned, the
+   enthalpy the fluid gains in the tube is the heat entering its outer surface times
+   its multiplier times the half-node factor (r_i / (r_i - dr/2)) ((r_o + dr/2) / r_o),
+   which lies in [1, 1 + 4 dr / r_i]: the radial discretisation error of the clause.
+   Hypotheses: constant conductivity, a film coefficient that does not vary along
+   the tube (with a temperature-dependent film the solid uses the local and the flow
+   path the mean value). *)
 From Coq Require Import QArith List Bool ZArith.
 From SV Require Import theory.Sums model.Thermal model.FlowPath model.Coupled model.Loops
-     proofs.ThermalConservation proofs.FlowPathProofs proofs.CoupledProofs proofs.LoopsProofs.
+     proofs.ThermalConservation proofs.FlowPathProofs proofs.CoupledProofs proofs.LoopsProofs proofs.CoupledEnergy.
 Import ListNotations.
 
 Theorem C07_setup_accepts_iff_partition :
@@ -39,6 +45,41 @@ Theorem C07_steady_tube_heat_balance :
   (sum_jk c (fun j k => wall_in_inner c T j k + wall_in_outer c T j k) == 0)%Q.
 Proof. exact steady_conserves. Qed.
 Print Assumptions C07_steady_tube_heat_balance.
+
+(* ... with a film condition inside and a prescribed flux outside, in the quantities the flow path uses *)
+Theorem C07_solid_passes_outer_heat_to_film :
+  forall c T0 T hf kc tfk q, steady c = true -> rad_pos c -> tables_periodic c -> Eqs c T0 T ->
+  inner c = Conv (fun _ _ => hf) (fun _ k => tfk k) -> outer c = Flux q ->
+  (0 < kc)%Q -> (forall i j k, cc c i j k == kc)%Q -> (forall i j k, kk c i j k == kc)%Q -> (0 < Thermal.dr c)%Q ->
+  (hf * rh c 0%nat * sum_jk c (fun j k => T 1%nat j k - tfk k) == rh c (nr c) * sum_jk c q)%Q.
+Proof. exact solid_inner_equals_outer. Qed.
+Print Assumptions C07_solid_passes_outer_heat_to_film.
+
+(* the energy clause for one tube, through the coupled fixed point *)
+Theorem C07_tube_energy_balance :
+  forall c T0 T kc q pi f p mdot tin w tout tfk,
+  steady c = true -> rad_pos c -> tables_periodic c -> Eqs c T0 T ->
+  inner c = Conv (fun _ _ => film f (tmean tin tout) (velocity pi f p mdot tin tout) (FlowPath.ri p)) (fun _ k => tfk k) ->
+  outer c = Flux q ->
+  (0 < kc)%Q -> (forall i j k, cc c i j k == kc)%Q -> (forall i j k, kk c i j k == kc)%Q -> (0 < Thermal.dr c)%Q ->
+  fluid_temps p tin tout = map tfk (krange c) -> (0 < rh c 0%nat)%Q ->
+  (q_mass f p mdot tin w tout == q_conv pi f p mdot tin w tout (metal_of c T))%Q ->
+  (q_mass f p mdot tin w tout ==
+   w * (FlowPath.ri p / rh c 0%nat) * rh c (nr c) * (FlowPath.dz p * dtheta pi p) * sum_jk c q)%Q.
+Proof. exact tube_energy_balance. Qed.
+Print Assumptions C07_tube_energy_balance.
+
+Theorem C07_energy_factor_is_half_node :
+  forall c rip, (rip == Thermal.ri c)%Q -> (0 < rh c 0%nat)%Q -> (0 < rad c (nr c))%Q ->
+  ((rip / rh c 0%nat) * rh c (nr c) == half_node_factor (Thermal.ri c) (rad c (nr c)) (Thermal.dr c) * rad c (nr c))%Q.
+Proof. exact tube_factor_is_half_node. Qed.
+Print Assumptions C07_energy_factor_is_half_node.
+
+Theorem C07_energy_factor_within_radial_discretisation :
+  forall ri ro dr, (0 < dr)%Q -> (dr <= ri)%Q -> (ri <= ro)%Q ->
+  (1 <= half_node_factor ri ro dr /\ half_node_factor ri ro dr <= 1 + 4 * dr / ri)%Q.
+Proof. exact half_node_factor_bounds. Qed.
+Print Assumptions C07_energy_factor_within_radial_discretisation.
 
 (* the fluid enters at the prescribed inlet temperature, panels are traversed in
    declared order with the previous manifold as inlet, every tube's fluid gains
